@@ -2,6 +2,7 @@ package props
 
 import (
 	"fmt"
+	"strings"
 	"testing"
 
 	"github.com/jotaen/klog/klog/app/cli/util"
@@ -44,11 +45,9 @@ func checkC09(c caseC09) (Outcome, error) {
 	}
 	o1 := r1.Out
 	// The model's prediction of the canonical form.
-	want := ""
-	if len(c.Doc.Records) > 0 {
-		want = "\n" + model.CanonRender(c.Doc) + "\n"
-	}
-	if o1 != want {
+	// (klog surrounds the records with an empty line; that framing is presentation, not asserted)
+	want := model.CanonRender(c.Doc)
+	if strings.Trim(o1, "\n") != strings.Trim(want, "\n") || (len(c.Doc.Records) == 0 && strings.TrimSpace(o1) != "") {
 		return out, fmt.Errorf("print output is not the canonical form of the input\ninput: %s\ngot:   %s\nwant:  %s", quoteShort(text), quoteShort(o1), quoteShort(want))
 	}
 	// The output is a valid file that parses to the same records.
